@@ -288,8 +288,22 @@ def run(prog: Program, rep, thorough: bool) -> None:
         v, st = ev3.call_value(wv, [], self_val=wind, st=st)
     except Undecided as exc:
         raise AnalysisError(f'Wind.vector: {exc}') from exc
-    if not isinstance(v, Inst):
+    stored = [x for _p, x in cond_leaves(v) if not isinstance(x, Inst)]
+    fresh = [x for _p, x in cond_leaves(v) if isinstance(x, Inst)]
+    if stored and fresh:
+        # some path hands back a value kept on the object instead of computing it from the current fields
+        guarded = [n for n in ('velocity', 'direction_from') if n in wind_c.setters] or ('__setattr__' in wind_c.methods)
+        if guarded:
+            rep.undecided('C12.R3', wv.where, 'Wind.vector is kept on the object',
+                          f'the fields are written through {guarded}: whether every write resets the kept vector is not decided')
+        else:
+            rep.fail('C12.R3', cond.path, wv.node.lineno, wv.qualname, 'stored-vector',
+                     f'Wind.vector returns a value kept on the object ({stored[0]!r}) on some path: velocity and '
+                     f'direction_from are plain public attributes, so after either is reassigned the wind applied is no '
+                     f'longer the one described (a wind set to zero speed keeps blowing)')
+    if not fresh:
         raise AnalysisError(f'Wind.vector returns {v!r}')
+    v = fresh[0]
     comp = st.heap[v.oid]
     w, d = A.sym('w'), A.sym('d')
     kx = A.ratio_const(comp['x'].rf, w * A.fn('cos', d)) if isinstance(comp.get('x'), Scalar) else None
@@ -374,6 +388,7 @@ VARIANTS = [
     Variant('next-range-from-previous-segment', 'break', [(TCF, '            self.next_range = cur_wind.until_distance >> Distance.Foot\n', '            self.next_range = self.winds[max(self.current - 1, 0)].until_distance >> Distance.Foot\n')], 'C12.R2'),
     Variant('cross-wind-sign', 'break', [(CON, 'return Vector(range_component, 0, cross_component)', 'return Vector(range_component, 0, -cross_component)')], 'C12.R3', 'wind from the left deflects left'),
     Variant('refresh-uses-time', 'break', [(TCF, 'wind_vector = wind_sock.vector_for_range(range_vector.x)', 'wind_vector = wind_sock.vector_for_range(time * 1000)')], 'C12.R2'),
+    Variant('wind-vector-cached', 'break', [(CON, '        wind_velocity_fps = self.velocity >> Velocity.FPS\n        wind_direction_rad = self.direction_from >> Angular.Radian\n', '        if getattr(self, "_vector", None) is not None:\n            return self._vector\n        wind_velocity_fps = self.velocity >> Velocity.FPS\n        wind_direction_rad = self.direction_from >> Angular.Radian\n'), (CON, '        return Vector(range_component, 0, cross_component)\n', '        self._vector = Vector(range_component, 0, cross_component)\n        return self._vector\n')], 'C12.R3', 'seeded change C12/5'),
     Variant('twin-sorted-attrgetter-style', 'twin', [(CON, 'key=lambda wind: wind.until_distance.raw_value', 'key=lambda w: w.until_distance >> Distance.Foot')], None),
     Variant('twin-cache-renamed', 'twin', [(TCF, '_last_vector_cache', '_cache', 6)], None),
 ]
